@@ -456,6 +456,24 @@ def c16(ck):
                     ck.fail("unsupported-inserted", key, "c16:silent-changes-result", dict(ddl=script, observed=[a[1], b[1]]))
                 else:
                     ck.ok("unsupported-inserted", key, dict(ddl=script[:160], silent_false=b[0]))
+    # a session option written without ';' (T-SQL: SET ANSI_NULLS ON) followed by an unsupported statement: the statement is
+    # still rejected when not silent, and yields nothing (and changes nothing) when silent
+    for so in ("SET ANSI_NULLS ON", "SET QUOTED_IDENTIFIER ON", "set nocount on"):
+        for uk, us in uns:
+            if uk in ("go", "use") or us.upper().startswith(("SET", "GO", "USE")):
+                continue
+            script = so + "\n" + us
+            a, b, alone = parse(script, ctor=dict(silent=True)), parse(script, ctor=dict(silent=False)), parse(so)
+            rejected_alone = parse(us, ctor=dict(silent=False))[0] == "exc"
+            key = (so, uk)
+            if a[0] == "exc":
+                ck.fail("after-unterminated-set", key, "c16:silent-true-raises:" + a[1], dict(ddl=script, observed=a))
+            elif alone[0] == "ok" and jdump(a[1]) != jdump(alone[1]):
+                ck.fail("after-unterminated-set", key, "c16:unsupported-statement-changes-result", dict(ddl=script, observed=a[1], expected=alone[1]))
+            elif rejected_alone and b[0] != "exc":
+                ck.fail("after-unterminated-set", key, "c16:unsupported-statement-not-rejected-when-not-silent", dict(ddl=script, ctor=dict(silent=False), observed=b, expected="DDLParserError"))
+            else:
+                ck.ok("after-unterminated-set", key, dict(ddl=script[:160]))
     # unknown output modes
     for m in ["nosuch", "SQL", "postgresql", "", "sq", "post", "my", "hql ", "big"]:
         for silent in (True, False):
